@@ -194,31 +194,61 @@ def main():
         # ---- triage violations by native replay
         reproduced = []
         not_reproduced = []
-        for i, v in enumerate(tot['violations'] + tot['bounds']):
-            failed = h.concrete_check(native, v['inputs'], v['shape'])
-            if native_rel is None:
-                native_rel = build.Native('release')
-            failed_rel = h.concrete_check(native_rel, v['inputs'], v['shape'])
-            rec = {'property': pid, 'claim': v['what'], 'shape': v['shape'], 'inputs': v['inputs'],
-                   'native_failed_claims_dev': failed, 'native_failed_claims_release': failed_rel}
-            if failed or failed_rel:
-                # is it a listed known finding?
-                kfm = None
-                for kf in known:
-                    if h.KNOWN_MATCHERS[kf['match']](v['shape'], v['inputs'], failed + failed_rel):
-                        kfm = kf
+
+        def triage(vlist):
+            nonlocal native_rel
+            new_found = False
+            # at most 8 counterexamples per distinct claim, one per (claim, shape), claims interleaved
+            byclaim = {}
+            for v in vlist:
+                lst = byclaim.setdefault(v['what'], [])
+                skey = json.dumps(v['shape'], sort_keys=True, default=str)
+                if len(lst) < 8 and all(json.dumps(x['shape'], sort_keys=True, default=str) != skey for x in lst):
+                    lst.append(v)
+            order = []
+            for i in range(8):
+                for lst in byclaim.values():
+                    if i < len(lst):
+                        order.append(lst[i])
+            for v in order:
+                failed = h.concrete_check(native, v['inputs'], v['shape'])
+                if native_rel is None:
+                    native_rel = build.Native('release')
+                failed_rel = h.concrete_check(native_rel, v['inputs'], v['shape'])
+                rec = {'property': pid, 'claim': v['what'], 'shape': v['shape'], 'inputs': v['inputs'],
+                       'native_failed_claims_dev': failed, 'native_failed_claims_release': failed_rel}
+                if failed or failed_rel:
+                    kfm = None
+                    for kf in known:
+                        if h.KNOWN_MATCHERS[kf['match']](v['shape'], v['inputs'], failed + failed_rel):
+                            kfm = kf
+                            break
+                    if kfm is not None:
+                        line = 'KNOWN-FINDING: property=%s %s [%s]' % (pid, kfm['what'], kfm['id'])
+                        if line not in kf_lines:
+                            kf_lines.append(line)
+                        continue
+                    path = os.path.join(VERIF, 'evidence', 'replays', '%s-%d.json' % (pid, len(reproduced)))
+                    json.dump(rec, open(path, 'w'), indent=1, default=str)
+                    rec['path'] = path
+                    reproduced.append(rec)
+                    new_found = True
+                    if len(reproduced) >= 3:
                         break
-                if kfm is not None:
-                    line = 'KNOWN-FINDING: property=%s %s [%s]' % (pid, kfm['what'], kfm['id'])
-                    if line not in kf_lines:
-                        kf_lines.append(line)
-                    continue
-                path = os.path.join(VERIF, 'evidence', 'replays', '%s-%d.json' % (pid, len(reproduced)))
-                json.dump(rec, open(path, 'w'), indent=1, default=str)
-                rec['path'] = path
-                reproduced.append(rec)
-            else:
-                not_reproduced.append(rec)
+                else:
+                    not_reproduced.append(rec)
+            return new_found
+
+        first = tot['violations'] + tot['bounds']
+        triage(first)
+        if first and not reproduced and not not_reproduced:
+            # every counterexample of the first pass is a listed known finding: a listed finding must not hide other
+            # violations, so explore everything and triage every distinct claim / shape
+            log.append('first pass found only known findings; second pass without stopping at the first violation')
+            opts2 = dict(opts, stop_on_violation=False, first_only=False, deadline=time.time() + budget)
+            results = engine.run_harness(pid.lower(), shapes, opts2, procs=args.procs)
+            tot = engine.summarize(results)
+            triage(tot['violations'] + tot['bounds'])
         for l in kf_lines:
             print(l)
         incon = list(tot['unsupported'])
